@@ -6,12 +6,12 @@ import gens as G
 from props.c05 import KIND, QUAD, BOOL, SPIN, cls_of
 
 ID = "C04"
-IMPORTS = "From QV.Model Require Import Base Matrix Convert.\nFrom QV.Corr Require Import C04."
+IMPORTS = "From QV.Model Require Import Base Matrix Convert Reduce.\nFrom QV.Corr Require Import C04."
 CASE_TYPE = "(cin * cout)"
 RUN, EQB = "run_case", "out_eqb"
 N = {"quick": 800, "thorough": 10000}
 RULE = ("random raw dicts (unsorted / repeated labels, mixed label types) and model objects of all ten kinds through the "
-        "four converters, the to_* methods of QUBO/QUSO, convert_solution with dict/list/tuple solutions in boolean and "
+        "four converters, the to_* methods of QUBO/QUSO and of PUBO/PUSO/PCBO/PCSO objects of degree <= 2, convert_solution with dict/list/tuple solutions in boolean and "
         "spin form (all-ones included), and the exports Q, h, J, qubo_to_matrix, matrix_to_qubo; non-trivial = at least one "
         "key with two or more labels; distinct by canonical JSON")
 THEOREMS = ("C04_pubo_to_puso C04_puso_to_pubo C04_qubo_to_quso C04_quso_to_qubo C04_closed_form_agrees C04_correspondence "
@@ -50,8 +50,8 @@ def gen_(rng, i, tier):
             t = G.raw_terms(rng, uni, max_vars=5, max_terms=6, max_deg=4, zero_ok=(src is None))
         return {"op": "conv", "fn": fn, "src": src, "terms": G.jraw(t)}
     if r < 0.60:
-        kind = rng.choice(["QUBO", "QUSO"])
-        t = G.quad_terms(rng, rng.choice(['int', 'pool']), spin=(kind == "QUSO"))
+        kind = rng.choice(["QUBO", "QUSO", "QUBO", "QUSO", "PUBO", "PUSO", "PCBO", "PCSO"])
+        t = G.quad_terms(rng, rng.choice(['int', 'pool']), spin=(kind in SPIN))
         return {"op": "method", "kind": kind, "terms": G.jraw(t), "meth": rng.randrange(4)}
     if r < 0.80:
         kind = rng.choice(["QUBO", "QUSO", "PUBO", "PUSO", "PCBO", "PCSO"])
@@ -225,7 +225,7 @@ def oracle(case, out):
     elif op == "method":
         mp = dict(out["mapping"])
         src, dst = out["src_items"], out["terms"]
-        spin_src = case["kind"] == "QUSO"
+        spin_src = case["kind"] in SPIN
         spin_dst = case["meth"] in (1, 3)
         labs = labels_of(src)
         if not set(labels_of(dst)) <= set(mp.values()):
@@ -243,7 +243,8 @@ def oracle(case, out):
         want = {0: "QUBOMatrix", 1: "QUSOMatrix", 2: "PUBOMatrix", 3: "PUSOMatrix"}[case["meth"]]
         if out["kind"] != want:
             v.append("%s returned %s" % (METH[case["meth"]], out["kind"]))
-        if out["enum"]["kind"] != ("QUBOMatrix" if case["kind"] == "QUBO" else "QUSOMatrix"):
+        if out["enum"]["kind"] != {"QUBO": "QUBOMatrix", "QUSO": "QUSOMatrix", "PUBO": "PUBOMatrix", "PCBO": "PUBOMatrix",
+                                   "PUSO": "PUSOMatrix", "PCSO": "PUSOMatrix"}[case["kind"]]:
             v.append("to_enumerated returned %s" % out["enum"]["kind"])
     elif op == "convsol":
         # M.value(M.convert_solution(s)) equals the enumerated model's value at s (in the model's own form)
